@@ -207,6 +207,17 @@ class Fn:
             op = " && " if isinstance(e.op, ast.And) else " || "
             return "(" + op.join(self.cond(v) for v in e.values) + ")"
         if isinstance(e, ast.UnaryOp) and isinstance(e.op, ast.Not):
+            # `not (a < b)` between ints is `a >= b`: printed as the comparison itself (exact on integers), so that the
+            # spelling of a test does not reach the generated term
+            c = e.operand
+            flip = {ast.Lt: ast.GtE, ast.LtE: ast.Gt, ast.Gt: ast.LtE, ast.GtE: ast.Lt, ast.Eq: ast.NotEq, ast.NotEq: ast.Eq}
+            if isinstance(c, ast.Compare) and len(c.ops) == 1 and type(c.ops[0]) in flip:
+                try:
+                    ints = self.typeof(c.left) == "Z" and self.typeof(c.comparators[0]) == "Z"
+                except Unsupported:
+                    ints = False
+                if ints:
+                    return self.cond(ast.Compare(left=c.left, ops=[flip[type(c.ops[0])]()], comparators=c.comparators))
             return f"(negb {self.cond(e.operand)})"
         if isinstance(e, ast.Compare) and len(e.ops) == 1:
             a, b, op = e.left, e.comparators[0], e.ops[0]
